@@ -150,28 +150,30 @@ Variable t : ranks.
 Definition crank (c : cls) : list N :=
   match c with
   | CMissing => r_missing t | CNone => r_none t | CNum => r_int t | CStr => r_str t | CList => r_list t
-  | CTuple => r_tuple t | CDict => r_dict t | CObj n => n | CEnt => []
+  | CTuple => r_tuple t | CDict => r_dict t | CObj n _ => n | CEnt => []
   end.
 Definition cidx (c : cls) : N :=
   match c with
   | CMissing => 0 | CNone => 1 | CNum => 2 | CStr => 3 | CList => 4 | CTuple => 5 | CDict => 6
-  | CObj _ => 7 | CEnt => 8
+  | CObj _ _ => 7 | CEnt => 8
   end%N.
 (* by rank string as the code does; the index only separates classes whose rank strings coincide
    (which [ranks_ok] and [name_ok] exclude) *)
+Definition cuid (c : cls) : N := match c with CObj _ u => u | _ => 0%N end.
 Definition cls_cmp (c d : cls) : comparison :=
-  cthen (str_cmp (crank c) (crank d)) (N.compare (cidx c) (cidx d)).
+  cthen (str_cmp (crank c) (crank d)) (cthen (N.compare (cidx c) (cidx d)) (N.compare (cuid c) (cuid d))).
 
 Lemma cls_cmp_refl c : cls_cmp c c = Eq.
-Proof. unfold cls_cmp. rewrite str_cmp_refl. simpl. apply N.compare_refl. Qed.
+Proof. unfold cls_cmp. rewrite str_cmp_refl, !N.compare_refl. reflexivity. Qed.
 Lemma cls_cmp_antisym c d : cls_cmp d c = CompOpp (cls_cmp c d).
-Proof. unfold cls_cmp. rewrite cthen_opp, <- str_cmp_antisym, <- N.compare_antisym. reflexivity. Qed.
+Proof. unfold cls_cmp. rewrite !cthen_opp, <- str_cmp_antisym, <- !N.compare_antisym. reflexivity. Qed.
 Lemma cls_cmp_trans c d e : trans_ok (cls_cmp c d) (cls_cmp d e) (cls_cmp c e).
-Proof. unfold cls_cmp. apply cthen_trans. apply str_cmp_trans. intros; apply N_cmp_trans. Qed.
+Proof. unfold cls_cmp. apply cthen_trans. apply str_cmp_trans. intros; apply cthen_trans. apply N_cmp_trans. intros; apply N_cmp_trans. Qed.
 Lemma cls_cmp_eq c d : cls_cmp c d = Eq -> c = d.
 Proof.
   unfold cls_cmp. destruct (str_cmp (crank c) (crank d)) eqn:E; simpl; try discriminate.
-  intros H. apply N.compare_eq in H. apply str_cmp_eq in E.
+  destruct (N.compare (cidx c) (cidx d)) eqn:F; simpl; try discriminate.
+  intros H. apply N.compare_eq in H. apply N.compare_eq in F. apply str_cmp_eq in E.
   destruct c, d; simpl in *; try discriminate; try reflexivity. congruence.
 Qed.
 
